@@ -233,15 +233,34 @@ pub fn fingerprint(dbg: &str) -> String {
     out
 }
 
+/// `<number of chars>:<checksum>`, checksum = sum of code point * (index mod 7 + 1), modulo 1000003
+/// (lean/TephraModel/LexDisplay.lean `textPrint`).
+pub fn text_print(s: &str) -> String {
+    let mut n = 0usize;
+    let mut acc = 0u64;
+    for (i, c) in s.chars().enumerate() {
+        acc = (acc + (c as u64) * ((i % 7) as u64 + 1)) % 1_000_003;
+        n = i + 1;
+    }
+    format!("{n}:{acc}")
+}
+
+/// `format!("{}", lexer)` (`impl Display for Lexer`); `None`: formatting panicked.
+fn display_text(lexer: &Lexer<'_, Sc>) -> Option<String> {
+    std::panic::catch_unwind(std::panic::AssertUnwindSafe(|| format!("{}", lexer))).ok()
+}
+
 fn state_obs(lexer: &Lexer<'_, Sc>) -> String {
-    // the remaining read-only accessors of the lexer, appended after the fingerprint
+    // the remaining read-only accessors of the lexer, appended after the fingerprint; last, a
+    // fingerprint of the lexer's `Display` text
     let more = format!(
-        "{};{};{};{};{}",
+        "{};{};{};{};{};{}",
         wire::opt_span(lexer.peek_parse_span()),
         wire::opt_pos(lexer.peek_cursor_pos()),
         wire::b(lexer.is_empty()),
         crate::gen::le_name(lexer.line_ending()),
-        lexer.tab_width()
+        lexer.tab_width(),
+        display_text(lexer).map_or("panic".to_string(), |s| text_print(&s))
     );
     format!(
         "{}/{}/{}/{}/{}/{}",
@@ -304,6 +323,19 @@ fn apply<'t>(lexer: &mut Lexer<'t, Sc>, op: &Op) -> String {
 /// Run a history. Observation: for every op, `output@state` (ops inside a fork
 /// act on the clone and show the clone's state; `]` shows the original again).
 pub fn run_history(text: &str, m: ColumnMetrics, sc: usize, ops: &[Op]) -> String {
+    run_history_with(text, m, sc, ops, &|o, lexer| format!("{}@{}", o, state_obs(lexer)))
+}
+
+/// Decoding aid (replay family `lexdisp`, same input fields as `lexops`): for every op the whole
+/// `Display` text of the lexer, as dot-separated code points.
+pub fn display_history(text: &str, m: ColumnMetrics, sc: usize, ops: &[Op]) -> String {
+    run_history_with(text, m, sc, ops, &|_, lexer| {
+        display_text(lexer).map_or("panic".to_string(), |s| crate::render::encode(&s))
+    })
+}
+
+fn run_history_with(text: &str, m: ColumnMetrics, sc: usize, ops: &[Op],
+                    show: &dyn Fn(&str, &Lexer<'_, Sc>) -> String) -> String {
     guarded(|| {
         let source = SourceText::new(text).with_column_metrics(m);
         let mut stack: Vec<Lexer<'_, Sc>> = vec![Lexer::new(Sc::new(sc), source)];
@@ -313,16 +345,16 @@ pub fn run_history(text: &str, m: ColumnMetrics, sc: usize, ops: &[Op]) -> Strin
                 Op::ForkBegin => {
                     let c = stack.last().unwrap().clone();
                     stack.push(c);
-                    obs.push(format!("-@{}", state_obs(stack.last().unwrap())));
+                    obs.push(show("-", stack.last().unwrap()));
                 }
                 Op::ForkEnd => {
                     if stack.len() > 1 { let _ = stack.pop(); }
-                    obs.push(format!("-@{}", state_obs(stack.last().unwrap())));
+                    obs.push(show("-", stack.last().unwrap()));
                 }
                 _ => {
                     let lexer = stack.last_mut().unwrap();
                     let o = apply(lexer, op);
-                    obs.push(format!("{}@{}", o, state_obs(lexer)));
+                    obs.push(show(&o, lexer));
                 }
             }
         }
@@ -489,6 +521,10 @@ pub fn replay(family: &str, f: &[&str]) -> Option<String> {
         "lexops" => {
             let m = metrics(wire::parse_le(f[1]), f[2].parse().ok()?);
             Some(lexops_obs(&wire::parse_text(f[0]), m, f[3].parse().ok()?, &parse_ops(f[4])))
+        }
+        "lexdisp" => {
+            let m = metrics(wire::parse_le(f[1]), f[2].parse().ok()?);
+            Some(display_history(&wire::parse_text(f[0]), m, f[3].parse().ok()?, &parse_ops(f[4])))
         }
         _ => None,
     }
